@@ -9,7 +9,9 @@ import (
 	"sort"
 	"strings"
 	"sync"
+	"syscall"
 	"time"
+	"unsafe"
 
 	li "github.com/corazawaf/libinjection-go"
 )
@@ -314,9 +316,26 @@ type costReport struct {
 	WallS     float64   `json:"wall_s"`
 }
 
+// threadCPU returns the CPU time consumed by the calling OS thread
+// (clock_gettime(CLOCK_THREAD_CPUTIME_ID)): unlike wall-clock time it does not grow when
+// the machine is busy with other work and the thread is descheduled.
+func threadCPU() (int64, bool) {
+	var ts syscall.Timespec
+	const clockThreadCPUTimeID = 3
+	if _, _, e := syscall.Syscall(syscall.SYS_CLOCK_GETTIME, clockThreadCPUTimeID, uintptr(unsafe.Pointer(&ts)), 0); e != 0 {
+		return 0, false
+	}
+	return ts.Sec*1e9 + ts.Nsec, true
+}
+
+// timeIt: minimum over reps runs of the CPU time (microseconds) of one call, measured on
+// a locked OS thread; falls back to wall-clock if the thread clock is unavailable.
 func timeIt(det string, s string, reps int) float64 {
+	runtime.LockOSThread()
+	defer runtime.UnlockOSThread()
 	best := 1e18
 	for i := 0; i < reps; i++ {
+		c0, ok := threadCPU()
 		t0 := time.Now()
 		if det == "sqli" {
 			li.IsSQLi(s)
@@ -324,6 +343,9 @@ func timeIt(det string, s string, reps int) float64 {
 			li.IsXSS(s)
 		}
 		d := float64(time.Since(t0).Nanoseconds()) / 1000
+		if c1, ok1 := threadCPU(); ok && ok1 {
+			d = float64(c1-c0) / 1000
+		}
 		if d < best {
 			best = d
 		}
